@@ -175,9 +175,12 @@ fn layout_check_inner(data: &[u8], main: &str, run: &dyn Fn(&mut dyn Buf) -> Str
             return format!(" ORACLE-FAIL chunked buffer (pieces of {}) gives {}", size, s);
         }
     }
+    // two chunks: cut after continuation bytes (inside varints) and at positions spread over the whole input (inside payloads)
     let mut cuts = 0;
+    let n = data.len();
+    let spread: Vec<usize> = if n > 2 { vec![1, n / 4, n / 2, (3 * n) / 4, n - 1] } else { vec![] };
     for k in 1..data.len() {
-        if data[k - 1] & 0x80 != 0 && cuts < 16 {
+        if (data[k - 1] & 0x80 != 0 || spread.contains(&k)) && cuts < 24 {
             cuts += 1;
             let mut c = Bytes::copy_from_slice(&data[..k]).chain(Bytes::copy_from_slice(&data[k..]));
             let s = run(&mut c);
